@@ -98,6 +98,28 @@ def main() -> int:
         bad += check("crc bytes", ev("'%02x%02x' % (q & 255, q >> 8)", q=crc) == ev("hexlify(pack('<H', q)).decode()", q=crc))
     except Exception as exc:  # noqa: BLE001
         bad += check(f"interpreter-level canonical forms ({type(exc).__name__}: {exc})", False)
+    # round-4 additions: unit resolution, guards under facts, bool comparisons, integer identities, one-byte pack
+    from .. import frames as F
+    from .. import lib as L
+    from ..interp import mkcmp
+    p_, q_ = ("truthy", ("sym", "p", "any")), ("truthy", ("sym", "q", "any"))
+    bad += check("unit resolution", q_ in F.flat_pc([disj([neg(p_), q_]), p_]))
+    bad += check("unit resolution does not guess", q_ not in F.flat_pc([disj([neg(p_), q_])]))
+    bad += check("contradiction folds", conj([p_, neg(p_)]) == c(False))
+    bad += check("decided through a disjunction", decided_by([disj([neg(p_), q_]), neg(q_)], p_) is False)
+    bad += check("cond == True is cond", mkcmp("==", p_, c(True)) == p_ and mkcmp("!=", p_, c(True)) == neg(p_) and mkcmp("is", p_, c(False)) == neg(p_))
+    days = ("sym", "days", ("list", ("enum", "k")))
+    ln, ls = ("len", days), ("len", ("app", "set", days))
+    g_ = disj([("not", ("truthy", days)), ("cmp", "!=", ln, ls)])
+    bad += check("guard under facts: empty", F.guard_under(g_, F.collection_facts(days, True, None)) is True)
+    bad += check("guard under facts: dup", F.guard_under(g_, F.collection_facts(days, False, True)) is True)
+    bad += check("guard under facts: fine", F.guard_under(g_, F.collection_facts(days, False, False)) is False)
+    x_ = ("sym", "x", "int")
+    bad += check("0 | x", L.arith("or", c(0), x_) == x_ and L.arith("xor", x_, c(0)) == x_)
+    bad += check("nested masks fold", L.arith("and", L.arith("and", c(254), x_), c(8)) == L.arith("and", c(8), x_))
+    bad += check("x & M range", T.int_range(("app", "and", c(254), x_)) == (0, 254))
+    ea = ("eattr", ("sym", "d", ("enum", "k")), "bit_rep", (2, 4, 8))
+    bad += check("eattr range", T.int_range(ea) == (2, 8))
     print(f"engine selftest: {bad} failures")
     return 1 if bad else 0
 
